@@ -414,3 +414,19 @@ Example failed_insertion_example :
   insert_by_cpuset [] false fail_tree (rq HWLOC_OBJ_GROUP 9 93) = (fail_tree, OFail) /\
   snd (insert_by_cpuset [] false fail_tree (rq HWLOC_OBJ_GROUP 9 85)) = OInserted.
 Proof. repeat split; vm_compute; reflexivity. Qed.
+
+(* for the tie: after a failed call the C tree below the subtree root must be the tree observed before the call *)
+From HV Require Import Topo.Remove Topo.InsertTie.
+Definition fail_left_tree_unchanged (d10 d11 : dump) (root : N) : option bool :=
+  match tree_of_dump d10, tree_of_dump d11 with
+  | Some t10, Some t11 =>
+      match find_obj (fun o => oid o =? root) t10 with
+      | Some cur =>
+          match find_obj (fun o => opt_N_eqb (o_gp (odata o)) (o_gp (odata cur))) t11 with
+          | Some cur11 => Some (shape_eqb (shape_of cur) (shape_of cur11))
+          | None => None
+          end
+      | None => None
+      end
+  | _, _ => None
+  end.
